@@ -10,6 +10,9 @@
 //   family V : fields the harness sets (ports, VLAN id, session id, ICMP type, TTL, address octet, MPLS label) swept through their domain,
 //              libpcap programs compiled per value
 //   family P : the wire seeds of the corpus parsed by their entry point and re-serialized
+//   family R : histories of serializations of ONE object (first / second serialize(), clone, Packet copy, wrapped into and detached from
+//              an enclosing packet, after address / payload / child-class setters), incl. outermost IP without source address whose
+//              source is looked up (route to 127.0.0.1 via lo) by IP::prepare_for_serialize() at serialization time
 // Oracles: (1) mc/ref/dissect.hpp (own RFC 1071 sum, pseudo headers, bitwise CRC-32, protocol tables) compared layer by layer with
 // the object that was serialized; (2) libpcap filter predicates over the fields that were set: must match, and must not match a
 // neighbouring value.
@@ -338,12 +341,13 @@ static void run_plan(const Plan& pl, const Bytes& w, const std::string& kase) {
 
 // =============================================================================== the judge
 static bool g_fast_counts = false;    // sweeps: skip the string-keyed counters that do not change with the value
+static std::string g_note;            // family R: which serialization of the history is being judged
 
 static void judge(PDU& root, const Bytes& w, const std::string& kase, const Plan* plan) {
     const uint8_t* b = w.data();
     const size_t n = w.size();
     std::vector<OL> o = layers_of(root, n);
-    auto V = [&](const std::string& sig, const std::string& detail) { R.violation(sig, detail + " | frame " + hex(w).substr(0, 600) + (w.size() > 300 ? "..." : ""), kase); };
+    auto V = [&](const std::string& sig, const std::string& detail) { R.violation(sig, detail + (g_note.empty() ? std::string() : " | at step '" + g_note + "'") + " | frame " + hex(w).substr(0, 600) + (w.size() > 300 ? "..." : ""), kase); };
     if (o[0].sz != n) V("harness:size-differs", "size() " + std::to_string(o[0].sz) + " serialized " + std::to_string(n));
     ref::State st(o[0].want, 0, n);
     bool valid = o[0].want != ref::P_NONE;
@@ -447,6 +451,19 @@ static void judge(PDU& root, const Bytes& w, const std::string& kase, const Plan
                     V("len:" + clsname(*L.p) + ".rfc4884-length", "length octet announces " + std::to_string(D.rfc4884_len) + " bytes of original datagram; the message carries " + std::to_string(body) +
                       " bytes after its header and was built without extension structure");
             }
+            // Extension structure on a message that quotes NO original datagram (not a message RFC 4884 describes: nothing to pad to 128 bytes).
+            // libtins puts the structure right behind the header; judged: the length octet announces nothing, the structure there verifies.
+            bool ext_no_datagram = false;
+            if ((L.t == PDU::ICMP || L.t == PDU::ICMPv6) && D.rfc4884 && ext_allowed && !ch &&
+                (L.t == PDU::ICMP ? static_cast<const ICMP&>(*L.p).has_extensions() : static_cast<const ICMPv6&>(*L.p).has_extensions())) {
+                ext_no_datagram = true; lone_length = true;       // lone_length: the generic RFC 4884 placement rules do not apply
+                R.count("icmp_extension_structures_without_datagram");
+                if (D.rfc4884_len != 0) V("len:" + clsname(*L.p) + ".rfc4884-length", "length octet announces " + std::to_string(D.rfc4884_len) + " bytes of original datagram; nothing is quoted");
+                ref::Layer E;
+                if (L.off + L.hs <= L.rend) ref::check_ext_structure(b, L.off + L.hs, L.rend, E);
+                for (auto& is : E.issues) V(is.sig, is.detail);
+                R.count("checksums_verified", E.cksum_checked - E.cksum_bad);
+            }
             for (auto& is : D.issues) {
                 if (lone_length && (is.sig.compare(0, 8, "icmp-ext") == 0 || is.sig.compare(0, 12, "icmp:rfc4884") == 0 || is.sig == "cksum:icmp-extension-structure")) continue;
                 if (!nd_judged && (is.sig.compare(0, 10, "icmpv6:nd-") == 0 || is.sig.compare(0, 12, "icmpv6:mld2-") == 0)) continue;
@@ -484,7 +501,7 @@ static void judge(PDU& root, const Bytes& w, const std::string& kase, const Plan
                 size_t nobj = L.t == PDU::ICMP ? static_cast<const ICMP&>(*L.p).extensions().extensions().size() : static_cast<const ICMPv6&>(*L.p).extensions().extensions().size();
                 unsigned unit = L.t == PDU::ICMP ? 4 : 8;
                 size_t inner = ch ? ch->sz : 0;
-                if (has_ext && ext_allowed) {
+                if (has_ext && ext_allowed && !ext_no_datagram) {
                     R.count("icmp_extension_structures_checked");
                     if (!D.ext_present) V("icmp-ext:not-found-by-dissector", "the object carries " + std::to_string(nobj) + " extension objects; no valid extension structure where RFC 4884 puts it (length octet " + std::to_string(D.rfc4884_len) + " bytes)");
                     else if (D.ext_ok && (size_t)D.ext_objects != nobj) V("icmp-ext:object-count", "dissected " + std::to_string(D.ext_objects) + " objects, built " + std::to_string(nobj));
@@ -852,6 +869,221 @@ static void family_x(int job, int njobs) {
     }
 }
 
+// =============================================================================== family R: histories of serializations of ONE object
+// Derived fields must be right in EVERY serialization: the first one (when IP::prepare_for_serialize() still has to look up the source
+// address of an outermost IP whose source is 0.0.0.0), the second one (state written back into the object by the first), a clone's, a
+// Packet copy's, the object wrapped into / detached from an enclosing packet, and after a setter changed an input of a derived field
+// (addresses -> pseudo header, payload size -> lengths / padding, child class -> protocol tag).
+static bool route_available() {
+    static int st = -1;
+    if (st < 0) {
+        try { NetworkInterface i(IPv4Address("127.0.0.1")); st = i.addresses().ip_addr != IPv4Address() ? 1 : 0; }
+        catch (std::exception&) { st = 0; }
+    }
+    return st == 1;
+}
+static bool is_link_root(PDU::PDUType t) {
+    return t == PDU::ETHERNET_II || t == PDU::DOT3 || t == PDU::SLL || t == PDU::LOOPBACK || t == PDU::RADIOTAP;
+}
+// serialize + judge one output; returns false when the object cannot be serialized (counted)
+static bool ser_judge(PDU& root, const std::string& kase, const std::string& step) {
+    g_note = step;
+    Mon::reset();
+    if (root.size() == 0 || root.size() > 65535 || has_unserializable(root)) { R.count("repeat_steps_skipped"); g_note.clear(); return false; }
+    // what was set below a parent must be what is on the wire (the routing-table hook is for an outermost IP only)
+    std::vector<std::pair<const PDU*, uint32_t> > preset;
+    bool root_unset = root.pdu_type() == PDU::IP && static_cast<IP&>(root).src_addr() == IPv4Address();
+    for (PDU* p = &root; p; p = p->inner_pdu()) if (p->pdu_type() == PDU::IP && p->parent_pdu()) preset.push_back(std::make_pair((const PDU*)p, (uint32_t)static_cast<IP*>(p)->src_addr()));
+    Bytes w;
+    try { w = root.serialize(); }
+    catch (std::exception&) { R.count("repeat_steps_skipped"); g_note.clear(); return false; }
+    if (w.size() > 65535) { R.count("repeat_steps_skipped"); g_note.clear(); return false; }
+    std::vector<OL> o = layers_of(root, w.size());
+    for (auto& L : o) {
+        if (L.t != PDU::IP || L.off + 16 > w.size()) continue;
+        uint32_t wire; memcpy(&wire, w.data() + L.off + 12, 4);
+        for (auto& pr : preset) if (pr.first == L.p) {
+            R.count("ip_sources_below_a_parent_checked");
+            if (pr.second != wire) R.violation("set:IP.src_addr-rewritten-below-a-parent", "source set to " + IPv4Address(pr.second).to_string() + ", on the wire " + IPv4Address(wire).to_string() + " | at step '" + step + "' | frame " + hex(w).substr(0, 300), kase);
+        }
+        if (L.p == &root && root_unset) R.count(wire ? "routed_source_filled_in" : "routed_source_left_zero");
+    }
+    R.count("evaluations"); R.count("repeat_serializations");
+    Plan pl;
+    build_plan(o, pl);
+    judge(root, w, kase, &pl);
+    if (Mon::errors) R.violation(Mon::first, Mon::first_detail + " | at step '" + step + "'", kase);
+    g_note.clear();
+    return true;
+}
+
+// order: 0 the object itself is serialized first; 1 a clone first; 2 a Packet copy first; 3 wrapped into an Ethernet frame first, then alone
+static void history(PDU* rootp, const std::string& kase, int order) {
+    std::unique_ptr<PDU> root(rootp);
+    if (!g_only.empty() && kase != g_only) return;
+    uint64_t my = g_idx++;
+    if (skipped(my)) return;
+    set_case(my, "C05:history", kase);
+    R.count("histories");
+    const bool link_root = is_link_root(root->pdu_type());
+    auto wrapped = [&](const std::string& step) {
+        if (link_root || (root->pdu_type() != PDU::IP && root->pdu_type() != PDU::IPv6)) return;
+        std::unique_ptr<PDU> e(new EthernetII(eth())); e->inner_pdu(root->clone());
+        ser_judge(*e, kase, step);
+    };
+    if (order == 1) { std::unique_ptr<PDU> c(root->clone()); ser_judge(*c, kase, "clone serialized before the original"); }
+    if (order == 2) { Packet pk(*root); ser_judge(*pk.pdu(), kase, "Packet copy serialized before the original"); }
+    if (order == 3) wrapped("wrapped in EthernetII before it was ever serialized alone");
+    if (!ser_judge(*root, kase, "first serialize()")) return;
+    ser_judge(*root, kase, "second serialize()");
+    { std::unique_ptr<PDU> c(root->clone()); ser_judge(*c, kase, "clone of the serialized object"); ser_judge(*c, kase, "clone, second serialize()"); }
+    { Packet pk(*root); ser_judge(*pk.pdu(), kase, "Packet copy"); }
+    wrapped("wrapped in EthernetII after it was serialized alone");
+    // detached: the network layer of a link-layer rooted packet serialized on its own (only when that needs no routing table, or lo's)
+    if (link_root && root->inner_pdu() && (root->inner_pdu()->pdu_type() == PDU::IP || root->inner_pdu()->pdu_type() == PDU::IPv6)) {
+        std::unique_ptr<PDU> d(root->inner_pdu()->clone());
+        bool ok = true;
+        if (d->pdu_type() == PDU::IP) { IP& i = static_cast<IP&>(*d); if (i.src_addr() == IPv4Address() && !(i.dst_addr() == IPv4Address("127.0.0.1") && route_available())) ok = false; }
+        if (ok) { ser_judge(*d, kase, "network layer detached from its link layer, first serialize()"); ser_judge(*d, kase, "detached, second serialize()"); }
+    }
+    // --- setters that change an input of a derived field, each followed by a serialization
+    bool any = false;
+    for (PDU* p = root.get(); p; p = p->inner_pdu()) {
+        if (p->pdu_type() == PDU::IP) { static_cast<IP*>(p)->src_addr("172.16.254.1"); any = true; }
+        if (p->pdu_type() == PDU::IPv6) { static_cast<IPv6*>(p)->src_addr("fe80::ffff:1"); any = true; }
+    }
+    if (any) ser_judge(*root, kase, "after src_addr() on every IP / IPv6 layer");
+    any = false;
+    for (PDU* p = root.get(); p; p = p->inner_pdu()) {
+        if (p->pdu_type() == PDU::IP) { static_cast<IP*>(p)->dst_addr("203.0.113.255"); any = true; }
+        if (p->pdu_type() == PDU::IPv6) { static_cast<IPv6*>(p)->dst_addr("ff02::1:ff00:1"); any = true; }
+    }
+    if (any) ser_judge(*root, kase, "after dst_addr() on every IP / IPv6 layer");
+    {   // payload grows by 3 bytes (odd <-> even, padding thresholds)
+        PDU* last = root.get(); while (last->inner_pdu()) last = last->inner_pdu();
+        if (last->pdu_type() == PDU::RAW) { Bytes& pl = static_cast<RawPDU*>(last)->payload(); pl.push_back(0x99); pl.push_back(0x01); pl.push_back(0xfe); }
+        else last->inner_pdu(new RawPDU(pattern(3, 0x99)));
+        ser_judge(*root, kase, "after the payload grew by 3 bytes");
+    }
+    {   // transport child swapped: TCP <-> UDP under the same IP / IPv6 (protocol tag, pseudo header protocol, header length)
+        for (PDU* p = root.get(); p; p = p->inner_pdu()) {
+            PDU* c = p->inner_pdu();
+            if (!c || (p->pdu_type() != PDU::IP && p->pdu_type() != PDU::IPv6)) continue;
+            if (c->pdu_type() != PDU::TCP && c->pdu_type() != PDU::UDP) continue;
+            PDU* below = c->inner_pdu() ? c->inner_pdu()->clone() : 0;
+            PDU* nc = c->pdu_type() == PDU::TCP ? static_cast<PDU*>(new UDP(4000, 53)) : static_cast<PDU*>(new TCP(443, 50000));
+            if (below) nc->inner_pdu(below);
+            p->inner_pdu(nc);
+            ser_judge(*root, kase, "after the transport child was swapped (TCP <-> UDP)");
+            break;
+        }
+    }
+    {   // payload removed
+        PDU* last = root.get(); while (last->inner_pdu()) last = last->inner_pdu();
+        PDU* par = last->parent_pdu();
+        if (last->pdu_type() == PDU::RAW && par && par->pdu_type() != PDU::PPPOE) { par->inner_pdu(0); ser_judge(*root, kase, "after the payload was removed"); }
+    }
+    ser_judge(*root, kase, "last serialize() again");
+    // an outermost IP sent back to 'no source': the lookup has to happen again, before the children are serialized
+    if (root->pdu_type() == PDU::IP && route_available() && static_cast<IP&>(*root).dst_addr() != IPv4Address()) {
+        IP& i = static_cast<IP&>(*root);
+        i.dst_addr("127.0.0.1"); i.src_addr(IPv4Address());
+        ser_judge(*root, kase, "after src_addr(0.0.0.0) with destination 127.0.0.1: first serialize()");
+        ser_judge(*root, kase, "after src_addr(0.0.0.0): second serialize()");
+    }
+}
+
+static IP ip_unset(const char* dst = "127.0.0.1") { return IP(dst); }
+static IP ip_unset_opts() { IP i("127.0.0.1"); i.noop(); i.stream_identifier(0x1234); return i; }
+
+static void family_r(int job, int njobs) {
+    size_t no = 0;
+    auto run = [&](const std::string& name, PDU* p, int orders) {
+        for (int order = 0; order < orders; ++order) {
+            PDU* q = order + 1 < orders ? p->clone() : p;
+            if (no++ % njobs == (size_t)job || !g_only.empty()) history(q, "family=R base=" + name + " order=" + std::to_string(order), order);
+            else delete q;
+        }
+    };
+    // (a) outermost IP without source, destination 127.0.0.1 (lo is the one interface every sandbox has), and the same below link layers
+    if (!route_available()) R.count("skipped_no_route");
+    else {
+        if (job == 0) R.count("route_to_127.0.0.1_available");
+        for (size_t n : {0, 1, 7, 8, 45}) {
+            std::string sz = "(" + std::to_string(n) + ")";
+            run("routed ip/tcp/raw" + sz, (ip_unset() / TCP(80, 40000) / raw(n)).clone(), 4);
+            run("routed ip/udp/raw" + sz, (ip_unset() / UDP(53, 4000) / raw(n)).clone(), 4);
+            run("routed ip/icmp-echo/raw" + sz, (ip_unset() / ICMP(ICMP::ECHO_REQUEST) / raw(n)).clone(), 4);
+            run("routed ip/ip(src set)/tcp/raw" + sz, (ip_unset() / IP("10.0.0.2", "10.0.0.1") / TCP(1, 2) / raw(n)).clone(), 4);
+            run("routed ip/ip(no src)/tcp/raw" + sz, (ip_unset() / IP("10.0.0.2") / TCP(1, 2) / raw(n)).clone(), 4);
+            run("routed ip/ipv6/udp/raw" + sz, (ip_unset() / ip6() / UDP(1, 2) / raw(n)).clone(), 4);
+            run("routed ip[opts]/tcp/raw" + sz, (ip_unset_opts() / TCP(80, 40000) / raw(n)).clone(), 4);
+            run("routed ip[opts]/udp/raw" + sz, (ip_unset_opts() / UDP(7, 7) / raw(n)).clone(), 4);
+            run("routed ip/tcp[opts]/raw" + sz, (ip_unset() / tcp_opts() / raw(n)).clone(), 4);
+            run("routed ip/ah/udp/raw" + sz, (ip_unset() / IPSecAH() / UDP(1, 2) / raw(n)).clone(), 4);
+        }
+        run("routed ip/tcp", (ip_unset() / TCP(80, 40000)).clone(), 4);
+        run("routed ip/udp", (ip_unset() / UDP(1, 2)).clone(), 4);
+        run("routed ip (nothing)", ip_unset().clone(), 4);
+        run("routed ip/icmp-unreach/ip/udp", (ip_unset() / ICMP(ICMP::DEST_UNREACHABLE) / IP("10.0.0.2", "10.0.0.1") / UDP(53, 1000) / raw(8)).clone(), 4);
+        run("routed ip/icmp-ttl+ext/raw(40)", (ip_unset() / icmp_err(ICMP::TIME_EXCEEDED, true, false) / raw(40)).clone(), 4);
+    }
+    // below a link layer the hook must not fire whether or not a route exists: the source stays what was set (0.0.0.0)
+    for (size_t n : {0, 7, 8}) {
+        std::string sz = "(" + std::to_string(n) + ")";
+        run("no-src eth/ip/tcp/raw" + sz, (eth() / ip_unset() / TCP(80, 40000) / raw(n)).clone(), 1);
+        run("no-src eth/ip/udp/raw" + sz, (eth() / ip_unset() / UDP(53, 4000) / raw(n)).clone(), 1);
+        run("no-src eth/dot1q/ip/udp/raw" + sz, (eth() / Dot1Q(9) / ip_unset() / UDP(53, 4000) / raw(n)).clone(), 1);
+        run("no-src sll/ip/tcp/raw" + sz, (SLL() / ip_unset() / TCP(1, 2) / raw(n)).clone(), 1);
+        run("no-src loopback/ip/udp/raw" + sz, (Loopback() / ip_unset() / UDP(1, 2) / raw(n)).clone(), 1);
+        run("no-src eth/ip[opts]/icmp/raw" + sz, (eth() / ip_unset_opts() / ICMP(ICMP::ECHO_REQUEST) / raw(n)).clone(), 1);
+        run("no-src eth/ip(src set)/ip(no src)/tcp/raw" + sz, (eth() / ip4() / ip_unset("10.9.9.9") / TCP(1, 2) / raw(n)).clone(), 1);
+    }
+    // ICMP errors whose RFC 4884 octet was requested / derived once and whose original datagram then changes or is absent
+    for (int type : {ICMP::DEST_UNREACHABLE, ICMP::TIME_EXCEEDED, ICMP::PARAM_PROBLEM})
+        for (int lf = 0; lf < 2; ++lf) {
+            run("icmp type=" + std::to_string(type) + " lenfield=" + std::to_string(lf) + " without original datagram", (eth() / ip4() / icmp_err(type, false, lf)).clone(), 1);
+            run("icmp type=" + std::to_string(type) + " lenfield=" + std::to_string(lf) + " +ext without original datagram", (eth() / ip4() / icmp_err(type, true, lf)).clone(), 1);
+            for (size_t n : {4, 8, 136}) run("icmp type=" + std::to_string(type) + " lenfield=" + std::to_string(lf) + " orig=" + std::to_string(n), (eth() / ip4() / icmp_err(type, false, lf) / raw(n)).clone(), 1);
+        }
+    for (int lf = 0; lf < 2; ++lf) {
+        run("icmpv6 ttl lenfield=" + std::to_string(lf) + " without original datagram", (eth() / ip6() / icmp6_err(false, lf)).clone(), 1);
+        run("icmpv6 ttl lenfield=" + std::to_string(lf) + " +ext without original datagram", (eth() / ip6() / icmp6_err(true, lf)).clone(), 1);
+        for (size_t n : {8, 16, 136}) run("icmpv6 ttl lenfield=" + std::to_string(lf) + " orig=" + std::to_string(n), (eth() / ip6() / icmp6_err(false, lf) / raw(n)).clone(), 1);
+    }
+    // (b) + (c) every stack shape and every grammar packet through the same history
+    std::vector<Shape> sh = shapes();
+    std::vector<size_t> sizes = {0, 7, 8, 133};
+    if (A.thorough()) { sizes.push_back(1); sizes.push_back(45); sizes.push_back(46); sizes.push_back(600); }
+    for (size_t si = 0; si < sh.size(); ++si)
+        for (size_t n : sizes) run("shape=" + std::to_string(si) + " payload=" + std::to_string(n), sh[si].make(n), A.thorough() ? 3 : 1);
+    auto g = grammar(A.thorough() ? 1000 : 3);
+    for (size_t i = 0; i < g.size(); ++i) {
+        PDU* p = g[i].pdu.release();
+        if (needs_environment(*p)) { delete p; continue; }
+        run("grammar packet=" + std::to_string(i), p, 1);
+    }
+    // first serialization of FRESH routed objects over a payload word sweep (every value a new object: the lookup happens every time)
+    if (route_available()) {
+        uint32_t stride = A.thorough() && !g_reduced ? 1 : 251;
+        for (int proto = 0; proto < 2; ++proto)
+            for (uint32_t v = 0; v < 65536; v += stride) {
+                if (no++ % njobs != (size_t)job && g_only.empty()) continue;
+                std::string kase = std::string("family=R fresh-routed ") + (proto ? "udp" : "tcp") + " v=" + std::to_string(v);
+                if (!g_only.empty() && kase != g_only) continue;
+                uint64_t my = g_idx++;
+                if (skipped(my)) continue;
+                set_case(my, "C05:history", kase);
+                Bytes pl = pattern(7, 0x41); pl[5] = uint8_t(v >> 8); pl[6] = uint8_t(v);
+                std::unique_ptr<PDU> p(proto ? (ip_unset() / UDP(53, 4000) / RawPDU(pl)).clone() : (ip_unset() / TCP(80, 40000) / RawPDU(pl)).clone());
+                g_fast_counts = true;
+                ser_judge(*p, kase, "first serialize() of a fresh object");
+                g_fast_counts = false;
+                R.count("fresh_routed_first_serializations");
+            }
+    }
+}
+
 // family V: a field the harness sets swept through its whole domain; the libpcap predicates for that field are compiled per value
 static void eval_once(int dlt, const std::string& expr, bool expect, const char* kind, const Bytes& w, const std::string& kase) {
     pcap_t*& pc = g_dead[dlt];
@@ -980,6 +1212,7 @@ int main(int argc, char** argv) {
         family_x(job, NJ);
         family_p(job, NJ);
         family_v(job, NJ);
+        family_r(job, NJ);
         family_s(job, NJ);
         if (job == 0) {
             // samples: what a case looks like
@@ -1002,6 +1235,7 @@ int main(int argc, char** argv) {
                 else if (kase.compare(0, 8, "family=P") == 0) family_p(0, 1);
                 else if (kase.compare(0, 8, "family=S") == 0) family_s(0, 1);
                 else if (kase.compare(0, 8, "family=V") == 0) family_v(0, 1);
+                else if (kase.compare(0, 8, "family=R") == 0) family_r(0, 1);
                 for (auto& v : R.violations) printf("violation reproduced: %s | %s\n", v.first.c_str(), v.second.detail.c_str());
                 if (!R.violations.empty()) return 1;
             }
